@@ -40,10 +40,20 @@ TECHNIQUE = "Lean 4 proof by induction over the loop + exact differential corres
 ASSUMPTIONS = ["Color equality is dataclass equality on (r,g,b,alpha,palette_index); alphas are taken from a dyadic grid so float equality is exact"]
 
 RGBA3 = [(255, 0, 0, 1.0), (0, 0, 255, 0.5), (0, 0, 0, 1.0)]
+# same RGB at several alphas: only the alpha decides the order (COLRv0 keeps alpha in the palette entry)
+SAME_RGB = [(10, 20, 30, a) for a in (0.0, 0.125, 0.25, 0.5, 0.75, 1.0)] + [(255, 0, 0, 0.5), (255, 0, 0, 0.25), (0, 0, 0, 0.5)]
 
 
 def universe():
     return [(r, g, b, a, i) for (r, g, b, a) in RGBA3 for i in [None, 0, 1, 2, 3, 4, 5]]
+
+
+def alpha_universe_sets():
+    """every subset (size 2..4) of one RGB at six alphas, unindexed: the order is decided by alpha alone"""
+    base = [(10, 20, 30, a, None) for a in (0.0, 0.125, 0.25, 0.5, 0.75, 1.0)]
+    for k in (2, 3, 4):
+        for comb in itertools.combinations(base, k):
+            yield list(comb)
 
 
 def gen_set(rng):
@@ -55,6 +65,7 @@ def gen_set(rng):
             (rng.randint(0, 255), rng.randint(0, 255), rng.randint(0, 255), rng.choice([1.0, 0.5, 0.25, 0.0])),
             rng.choice(RGBA3),
             (rng.choice([0, 255]), rng.choice([0, 255]), 0, 1.0),
+            rng.choice(SAME_RGB), rng.choice(SAME_RGB),
         ])
         idx = rng.choice([None, None, None, rng.randint(0, maxidx)])
         out.add((*rgba, idx))
@@ -153,6 +164,7 @@ def run(ctx, res):
                 "enumeration orders; distinct = distinct set; non-trivial = >= 2 colours and at least one explicit index")
     sets = [gen_set(ctx.rng) for _ in range(ctx.budget(1500, 20000))]
     sets += list(small_universe_sets(ctx.budget(3, 4)))
+    sets += list(alpha_universe_sets())
     suite_palette(ctx, res, sets)
     res.coverage_exhaustive = True
     try:
@@ -163,7 +175,7 @@ def run(ctx, res):
 
 
 def search(ctx, res, broken):
-    suite_palette(ctx, res, [gen_set(ctx.rng) for _ in range(20000)] + list(small_universe_sets(4)))
+    suite_palette(ctx, res, [gen_set(ctx.rng) for _ in range(20000)] + list(small_universe_sets(4)) + list(alpha_universe_sets()))
 
 
 def replay(ctx, res, payload):
